@@ -95,16 +95,9 @@ def r2(ctx):
     fi = ctx.func(MOD + ".compare_pair")
     env, kind = common.infer_str_kinds(fi.node)
     found = 0
-    for n in walk_function(fi.node):
-        if not isinstance(n, ast.If):
-            continue
-        tb = _agreement_comp(n.body, None)
-        fb = _agreement_comp(n.orelse, None)
-        if tb is None or fb is None:
-            continue
-        # this `if` chooses the orientation of the agreement vector
-        found += 1
-        test = n.test
+
+    def analyse_test(test0):
+        test = test0
         negated = False
         while isinstance(test, ast.UnaryOp) and isinstance(test.op, ast.Not):
             test = test.operand
@@ -158,6 +151,19 @@ def r2(ctx):
             why.append("orientation is chosen by %s, not by an order comparison of distances" % u(test))
         if negated and direct_smaller_true is not None:
             direct_smaller_true = not direct_smaller_true
+
+        return direct_smaller_true, d_args, why, test
+
+    for n in walk_function(fi.node):
+        if not isinstance(n, ast.If):
+            continue
+        tb = _agreement_comp(n.body, None)
+        fb = _agreement_comp(n.orelse, None)
+        if tb is None or fb is None:
+            continue
+        # this `if` chooses the orientation of the agreement vector
+        found += 1
+        direct_smaller_true, d_args, why, test = analyse_test(n.test)
         ok = not why
         ctx.ob(fi.qual, "orientation-operands", ok, fi.loc(n), "orientation test %s compares the direct with the complemented per-position distance of the same two haplotype strings" % u(test) if ok else "orientation test %s: %s" % (u(test), "; ".join(why)))
         ok2 = direct_smaller_true is not None and d_args is not None
@@ -167,7 +173,41 @@ def r2(ctx):
             ok2 = eq_branch[0] is ast.Eq and ne_branch[0] is ast.NotEq and list(eq_branch[1]) == d_args and list(ne_branch[1]) == d_args
             msg = "branch taken when the direct distance is smaller marks agreement with ==, the other with !=, over the tested strings" if ok2 else "branches do not match the tested orientation (direct-smaller branch uses %s over %s, other uses %s over %s)" % (eq_branch[0].__name__, eq_branch[1], ne_branch[0].__name__, ne_branch[1])
         ctx.ob(fi.qual, "orientation-branches", ok2, fi.loc(n), msg)
-    ctx.require(found >= 1, "no `if` choosing between an == and a != agreement vector found in compare_pair")
+    # form C: one comprehension whose element is `(p == q) == <orientation test>` (or the != / is-not variants)
+    for comp in [x for x in walk_function(fi.node) if isinstance(x, ast.ListComp) and len(x.generators) == 1]:
+        g = comp.generators[0]
+        if not (isinstance(g.iter, ast.Call) and u(g.iter.func) == "zip" and len(g.iter.args) == 2 and isinstance(g.target, ast.Tuple) and len(g.target.elts) == 2):
+            continue
+        tnames = {u(x) for x in g.target.elts}
+        for c in ast.walk(comp.elt):
+            if not (isinstance(c, ast.Compare) and len(c.ops) == 1 and isinstance(c.ops[0], (ast.Eq, ast.NotEq, ast.Is, ast.IsNot))):
+                continue
+            sides = [c.left, c.comparators[0]]
+            pair = [x for x in sides if isinstance(x, ast.Compare) and len(x.ops) == 1 and isinstance(x.ops[0], (ast.Eq, ast.NotEq)) and {u(x.left), u(x.comparators[0])} == tnames]
+            orient = [x for x in sides if x not in pair]
+            if len(pair) != 1 or len(orient) != 1 or not isinstance(orient[0], (ast.Compare, ast.UnaryOp)):
+                continue
+            found += 1
+            direct_smaller_true, d_args, why, test = analyse_test(orient[0])
+            ok = not why
+            ctx.ob(fi.qual, "orientation-operands", ok, fi.loc(comp), "orientation test %s compares the direct with the complemented per-position distance of the same two haplotype strings" % u(test) if ok else "orientation test %s: %s" % (u(test), "; ".join(why)))
+            ok2 = direct_smaller_true is not None and d_args is not None
+            msg = "orientation criterion not understood, element not checked"
+            if ok2:
+                pair_eq = isinstance(pair[0].ops[0], ast.Eq)
+                outer_eq = isinstance(c.ops[0], (ast.Eq, ast.Is))
+                good = True
+                for direct_smaller in (True, False):
+                    T = direct_smaller_true if direct_smaller else not direct_smaller_true
+                    for eqab in (True, False):
+                        pv = eqab if pair_eq else not eqab
+                        val = (pv == T) if outer_eq else (pv != T)
+                        if val != (eqab if direct_smaller else not eqab):
+                            good = False
+                ok2 = good and [u(a_) for a_ in g.iter.args] == d_args
+                msg = "the element marks agreement with == when the direct distance is smaller and with != otherwise, over the tested strings" if ok2 else "the agreement element `%s` does not follow the tested orientation over %s" % (u(c)[:80], d_args)
+            ctx.ob(fi.qual, "orientation-branches", ok2, fi.loc(comp), msg)
+    ctx.require(found >= 1, "no choice between an == and a != agreement vector found in compare_pair")
 
 
 def r3(ctx):
@@ -198,39 +238,105 @@ def r3(ctx):
     differ = ("%s == %s" % tuple(sorted([p0, p1])), False)
     ok = differ in ga
     ctx.ob(fi.qual, "run-extends-on-difference", ok, fi.loc(incs[0]), "%s += 1 exactly under %s != %s" % (run, p0, p1) if ok else "run counter is not incremented under %s != %s" % (p0, p1))
-    # flush
-    flips = [n for n in ast.walk(loop) if isinstance(n, ast.AugAssign) and isinstance(n.op, ast.Add) and isinstance(n.value, ast.BinOp) and isinstance(n.value.op, ast.FloorDiv) and u(n.value.left) == run and isinstance(n.value.right, ast.Constant) and n.value.right.value == 2]
-    sw = [n for n in ast.walk(loop) if isinstance(n, ast.AugAssign) and isinstance(n.op, ast.Add) and isinstance(n.value, ast.BinOp) and isinstance(n.value.op, ast.Mod) and u(n.value.left) == run and isinstance(n.value.right, ast.Constant) and n.value.right.value == 2]
-    resets = [n for n in ast.walk(loop) if isinstance(n, ast.Assign) and len(n.targets) == 1 and u(n.targets[0]) == run and isinstance(n.value, ast.Constant) and n.value.value == 0]
-    ok = len(flips) == 1 and len(sw) == 1 and len(resets) == 1 and u(flips[0].target).endswith(".flips") and u(sw[0].target).endswith(".switches") and flips[0].parent is sw[0].parent is resets[0].parent
-    ctx.ob(fi.qual, "flush-decomposition", ok, fi.loc(flips[0]) if flips else fi.loc(loop), "a finished run adds run//2 to flips and run%2 to switches and resets the run" if ok else "flush does not add run//2 to .flips and run%2 to .switches and reset the run in one block")
-    if not ok:
-        return
-    flush_if = flips[0].parent
-    ok = isinstance(flush_if, ast.If)
-    cond_ok = False
-    if ok:
-        t = flush_if.test
-        vals = t.values if isinstance(t, ast.BoolOp) and isinstance(t.op, ast.Or) else [t]
-        has_equal = any(atoms(v, True) == {("%s == %s" % tuple(sorted([p0, p1])), True)} for v in vals)
-        has_last = False
-        for v in vals:
-            if isinstance(v, ast.Compare) and len(v.ops) == 1 and isinstance(v.ops[0], ast.Eq):
-                a, b = linear(v.left), linear(v.comparators[0])
-                if a is not None and b is not None:
-                    d = {k: a.get(k, 0) - b.get(k, 0) for k in set(a) | set(b)}
-                    d = {k: x for k, x in d.items() if x}
-                    want = {idx: 1, "": 1, "len(%s)" % s0: -1}
-                    want2 = {idx: 1, "": 1, "len(%s)" % u(it.args[0].args[1]): -1}
-                    if d in (want, {k: -x for k, x in want.items()}, want2, {k: -x for k, x in want2.items()}):
-                        has_last = True
-        cond_ok = has_equal and has_last and len(vals) == 2
-    ctx.ob(fi.qual, "flush-condition", cond_ok, fi.loc(flush_if), "runs are flushed when the encodings agree again or at the last index" if cond_ok else "flush condition %s is not `last index or %s == %s`" % (u(flush_if.test) if ok else "?", p0, p1))
-    # order: the increment precedes the flush in the loop body, so the last index is counted
-    ninc, nflush = cfg.node_of(incs[0]), cfg.node_of(flips[0])
-    head = cfg.node_of(loop)
-    before = cfg.find_path(ninc, nflush, avoid_nodes=[head]) is not None and cfg.find_path(nflush, ninc, avoid_nodes=[head]) is None
-    ctx.ob(fi.qual, "increment-before-flush", before, fi.loc(incs[0]), "the run is extended before it is flushed within one iteration" if before else "the flush can run before the increment of the same index")
+    # flush: judged per iteration path (sa.pathfx), over the two facts EQ (p0 == p1) and LAST (i is the last index):
+    # a run is flushed iff EQ or LAST, with run//2 flips and run%2 switches of the run INCLUDING this position if it differs
+    import itertools
+    from sa import pathfx
+    from rules.common import tt_eval
+
+    LASTLF = {idx: 1, "len(%s)" % s0: -1, "": 1}
+
+    class NormTest(ast.NodeTransformer):
+        def visit_Compare(self, node):
+            self.generic_visit(node)
+            if len(node.ops) != 1 or not isinstance(node.ops[0], (ast.Eq, ast.NotEq)):
+                return node
+            l_, r_ = node.left, node.comparators[0]
+            neg = isinstance(node.ops[0], ast.NotEq)
+            nm = None
+            if {u(l_), u(r_)} == {p0, p1}:
+                nm = "EQ"
+            else:
+                a_, b_ = linear(l_), linear(r_)
+                if a_ is not None and b_ is not None:
+                    d_ = {k: a_.get(k, 0) - b_.get(k, 0) for k in set(a_) | set(b_)}
+                    d_ = {k: v for k, v in d_.items() if v}
+                    if d_ == LASTLF or d_ == {k: -v for k, v in LASTLF.items()}:
+                        nm = "LAST"
+            if nm is None:
+                return node
+            out_ = ast.Name(id=nm, ctx=ast.Load())
+            return ast.UnaryOp(op=ast.Not(), operand=out_) if neg else out_
+
+    def undivmod(e):
+        # divmod(a, b)[0] -> a // b ; divmod(a, b)[1] -> a % b
+        class T(ast.NodeTransformer):
+            def visit_Subscript(self, node):
+                self.generic_visit(node)
+                v_ = node.value
+                if isinstance(v_, ast.Call) and u(v_.func) == "divmod" and len(v_.args) == 2 and isinstance(node.slice, ast.Constant) and node.slice.value in (0, 1):
+                    return ast.BinOp(left=v_.args[0], op=ast.FloorDiv() if node.slice.value == 0 else ast.Mod(), right=v_.args[1])
+                return node
+        return T().visit(pathfx._clone(e))
+
+    try:
+        its = pathfx.iteration_summaries(cfg, loop)
+    except OverflowError:
+        its = None
+    if not its:
+        ctx.ob(fi.qual, "flush-decomposition", None, fi.loc(loop), "cannot enumerate the paths of one loop iteration")
+    else:
+        problem = None
+        covered = set()
+        for ps in its:
+            conds = []
+            unknown = None
+            for t_, pol_ in ps.atoms:
+                if t_.startswith("<"):
+                    continue
+                try:
+                    e_ = NormTest().visit(ast.parse(t_, mode="eval").body)
+                except SyntaxError:
+                    unknown = t_
+                    break
+                conds.append((e_, pol_))
+            if unknown:
+                problem = ("undecided", "a path tests `%s`" % unknown, ps)
+                break
+            for EQ, LAST in itertools.product((False, True), repeat=2):
+                try:
+                    if not all(tt_eval(e_, {"EQ": EQ, "LAST": LAST}) == pol_ for e_, pol_ in conds):
+                        continue
+                except ValueError as ex_:
+                    problem = ("undecided", "a path tests something else than `%s == %s` / last index: %s" % (p0, p1, ex_), ps)
+                    break
+                covered.add((EQ, LAST))
+                want_flush = EQ or LAST
+                runlf = {run: 1} if EQ else {run: 1, "": 1}
+                fl = [e_ for e_ in ps.effects if e_[0] == "augstore" and u(e_[1]).endswith(".flips")]
+                sw_ = [e_ for e_ in ps.effects if e_[0] == "augstore" and u(e_[1]).endswith(".switches")]
+                final = ps.env.get(run)
+                final_lf = linear(final) if final is not None else {run: 1}
+                if want_flush:
+                    okf = len(fl) == 1 and len(sw_) == 1
+                    if okf:
+                        fv, sv = undivmod(fl[0][2]), undivmod(sw_[0][2])
+                        okf = isinstance(fv, ast.BinOp) and isinstance(fv.op, ast.FloorDiv) and u(fv.right) == "2" and linear(fv.left) == runlf and isinstance(sv, ast.BinOp) and isinstance(sv.op, ast.Mod) and u(sv.right) == "2" and linear(sv.left) == runlf
+                    okf = okf and final_lf == {}
+                    if not okf and problem is None:
+                        problem = ("violation", "when %s and %s the run (of length %s) must be flushed as //2 flips and %%2 switches and reset; the path does: flips += %s, switches += %s, run = %s" % ("the positions agree" if EQ else "the positions differ", "this is the last index" if LAST else "more follow", "run" if EQ else "run + 1", [u(e_[2]) for e_ in fl], [u(e_[2]) for e_ in sw_], u(final) if final is not None else run), ps)
+                else:
+                    okf = not fl and not sw_ and final_lf == {run: 1, "": 1}
+                    if not okf and problem is None:
+                        problem = ("violation", "a differing position that is not the last one must only extend the run; the path does: flips += %s, switches += %s, run = %s" % ([u(e_[2]) for e_ in fl], [u(e_[2]) for e_ in sw_], u(final) if final is not None else run), ps)
+            if problem and problem[0] == "undecided":
+                break
+        if problem is None and len(covered) != 4:
+            problem = ("violation", "no path of an iteration handles EQ/LAST = %s" % sorted(set(itertools.product((False, True), repeat=2)) - covered), its[0])
+        if problem and problem[0] == "undecided":
+            ctx.ob(fi.qual, "flush-decomposition", None, fi.loc(loop), problem[1])
+        else:
+            ctx.ob(fi.qual, "flush-decomposition", problem is None, fi.loc(loop), "over all four combinations of (positions agree, last index) and all %d iteration paths: a run ends exactly at an agreeing position or at the last index and is split into run//2 flips and run%%2 switches" % len(its) if problem is None else problem[1], cfg.describe_path(problem[2].path) if problem else None)
     # diploid block comparison uses the same operands for both numbers
     cb = ctx.func(MOD + ".compare_block")
     sw_args = csf_args = None
@@ -249,24 +355,72 @@ def r4(ctx):
     fi = ctx.func(MOD + ".compare")
     cfg = ctx.cfg(fi)
     n = 0
+
+    def present_guard(ga):
+        # `phase is not None and no allele of it is None`
+        return ("None is phase", False) in ga and any(t.startswith("any(") and "is None" in t and not p for t, p in ga)
+
+    def counted_all_present(ga):
+        """`len(L) == len(phases)` where L gets exactly one entry per data set whose phase is present."""
+        for t, pol in ga:
+            if not pol or " == " not in t:
+                continue
+            sides = t.split(" == ")
+            if len(sides) != 2 or "len(phases)" not in sides:
+                continue
+            other = [x for x in sides if x != "len(phases)"][0]
+            if not (other.startswith("len(") and other.endswith(")")):
+                continue
+            L = other[4:-1]
+            inits = [(s_, v) for s_, v in util.assignments_to(fi.node, L)]
+            if len(inits) != 1 or not (isinstance(inits[0][1], ast.List) and not inits[0][1].elts):
+                continue
+            apps = [c_ for c_ in ctx.prog.calls_in(fi.node) if isinstance(c_.func, ast.Attribute) and c_.func.attr == "append" and u(c_.func.value) == L]
+            if len(apps) != 1:
+                continue
+            lp_ = apps[0]
+            while lp_ is not None and not isinstance(lp_, ast.For):
+                lp_ = getattr(lp_, "parent", None)
+            over_all = lp_ is not None and ("phases" in [u(a_) for a_ in getattr(lp_.iter, "args", [])] or u(lp_.iter) in ("phases", "range(len(phases))")) and not util.lexical_loop_exits(lp_)
+            # initialised in the same variant iteration, filled only where the phase is present
+            same_iter = getattr(inits[0][0], "parent", None) is getattr(lp_, "parent", None)
+            if over_all and same_iter and present_guard(guard_atoms(cfg, cfg.node_containing(apps[0]))):
+                return L
+        return None
+
+    flag_based = False
     for c in ctx.prog.calls_in(fi.node):
         if not (isinstance(c.func, ast.Attribute) and c.func.attr == "append" and c.args and u(c.args[0]) == "variant_index"):
             continue
         n += 1
         ga = guard_atoms(cfg, cfg.node_containing(c))
         recv = u(c.func.value)
-        if recv.startswith("blocks["):
-            ok = ("None is phase", False) in ga and any(t.startswith("any(") and "is None" in t and not p for t, p in ga)
+        per_file = isinstance(c.func.value, ast.Subscript) and u(c.func.value.slice) == "phase.block_id"
+        if per_file:
+            ok = present_guard(ga)
             msg = "a call enters a per-file block only if its phase is present and has no missing allele" if ok else "append to %s is not guarded by `phase is not None and no allele is None`" % recv
         else:
-            ok = ("any_none", False) in ga
-            msg = "a variant enters an intersection block only if no file lacks its phase" if ok else "append to %s is not guarded by `not any_none`" % recv
+            L = counted_all_present(ga)
+            tests = [t for t, p in ga if not t.startswith("<iter>")]
+            if ("any_none", False) in ga:
+                ok, flag_based = True, True
+                msg = "a variant enters an intersection block only if no file lacks its phase"
+            elif L is not None:
+                ok = True
+                msg = "a variant enters an intersection block only if %s has one entry per data set, and an entry is only added where the phase is present" % L
+            elif tests:
+                ok = None
+                msg = "cannot tell whether `%s` means that every data set has a complete phase for the variant" % " and ".join(sorted(tests))[:120]
+            else:
+                ok = False
+                msg = "append to %s is not guarded at all: a variant that is unphased in one file enters the intersection block" % recv
         ctx.ob(fi.qual, "phase-present:%s" % recv, ok, fi.loc(c), msg)
     ctx.require(n >= 2, "block membership appends not found in compare()")
-    # the flag is raised exactly where a phase is missing
-    sets = [s for s in walk_function(fi.node) if isinstance(s, ast.Assign) and u(s.targets[0]) == "any_none" and isinstance(s.value, ast.Constant) and s.value.value is True]
-    ok = bool(sets) and all(("None is phase", False) not in guard_atoms(cfg, cfg.node_of(s)) for s in sets)
-    ctx.ob(fi.qual, "any_none-raised-on-missing-phase", ok, fi.loc(sets[0]) if sets else fi.loc(), "any_none is raised on the branch where a phase is missing" if ok else "any_none is not raised on the missing-phase branch")
+    # the flag (if that is how it is done) is raised exactly where a phase is missing
+    if flag_based:
+        sets = [s for s in walk_function(fi.node) if isinstance(s, ast.Assign) and u(s.targets[0]) == "any_none" and isinstance(s.value, ast.Constant) and s.value.value is True]
+        ok = bool(sets) and all(("None is phase", False) not in guard_atoms(cfg, cfg.node_of(s)) for s in sets)
+        ctx.ob(fi.qual, "any_none-raised-on-missing-phase", ok, fi.loc(sets[0]) if sets else fi.loc(), "any_none is raised on the branch where a phase is missing" if ok else "any_none is not raised on the missing-phase branch")
     for f2 in (ctx.func(MOD + ".collect_common_variants"), ctx.func(MOD + ".run_compare")):
         for site in common.hom_sites(f2.node):
             ctx.note("het filter %s at %s does not exclude the missing genotype; such calls have no complete phase and are removed by the phase-present filter above, only the informational heterozygous counts include them" % (u(site), f2.loc(site)))
@@ -311,4 +465,4 @@ RULES = [
     ("C11.R4", "only present, complete phases enter blocks", r4),
     ("C11.R5", "per-chromosome switch-error records are collected afresh for each chromosome", r5),
 ]
-FLOORS = {"C11.R1": 12, "C11.R2": 2, "C11.R3": 6, "C11.R4": 3, "C11.R5": 1}
+FLOORS = {"C11.R1": 12, "C11.R2": 2, "C11.R3": 4, "C11.R4": 2, "C11.R5": 1}
